@@ -119,9 +119,10 @@ class Try:
 
 
 class Code:
-    def __init__(self, registers, ins, outs, insns, tries=(), pad_unit=0, leb_seed=None):
+    def __init__(self, registers, ins, outs, insns, tries=(), pad_unit=0, leb_seed=None, extra_lists=()):
         self.registers, self.ins, self.outs, self.insns, self.tries = registers, ins, outs, list(insns), list(tries)
         self.pad_unit = pad_unit
+        self.extra_lists = list(extra_lists)   # handler lists no try item refers to: (typed handlers, catch_all, in front?)
         self.leb_seed = leb_seed      # None: every LEB128 of the handler lists in its shortest form; a seed: lengths chosen at random
 
 
@@ -195,8 +196,9 @@ def encode_value(kind, v, b):
 
 class DexBuilder:
     def __init__(self, version=b"035", sort_pools=True, map_order=None, extra_strings=(), extra_types=(), strings_last=False,
-                 tail=b"", string_data_order=None, extra_fields=(), extra_methods=()):
+                 tail=b"", string_data_order=None, extra_fields=(), extra_methods=(), share_static_values=False):
         self.classes = []
+        self.share_static_values = share_static_values     # equal encoded arrays of static values are written once (as dx/d8 do)
         self.extra_fields = list(extra_fields)      # (class, name, type) referenced by nothing: they only take up field ids
         self.extra_methods = list(extra_methods)    # (class, name, return type, parameter types)
         self.string_data_order = string_data_order    # None (order of the ids) | "reverse" | function n -> permutation
@@ -316,6 +318,10 @@ class DexBuilder:
                 k = (tuple(t.handlers), t.catch_all)
                 if k not in lists:
                     lists.append(k)
+            for hs, ca, front in code.extra_lists:
+                k = (tuple(hs), ca)
+                if k not in lists:
+                    lists.insert(0, k) if front else lists.append(k)
             if code.leb_seed is None:
                 U, S = uleb, sleb
             else:
@@ -424,6 +430,7 @@ class DexBuilder:
 
         # static values
         sv_off = {}
+        sv_seen = {}
         n_sv, first = 0, None
         for c in self.classes:
             sf = sorted([f for f in c.fields if f[3]], key=lambda f: self._fidx[(c.name, f[0], f[1])])
@@ -431,10 +438,7 @@ class DexBuilder:
             if last < 0:
                 sv_off[c.name] = 0
                 continue
-            sv_off[c.name] = here()
-            first = first if first is not None else here()
-            n_sv += 1
-            data += uleb(last + 1)
+            arr = bytearray(uleb(last + 1))
             for f in sf[:last + 1]:
                 v = f[4]
                 if v is None:
@@ -442,7 +446,15 @@ class DexBuilder:
                     v = ("null", None) if t[0] in "L[" else ("boolean", False) if t == "Z" else \
                         ("byte", 0) if t == "B" else ("short", 0) if t == "S" else ("char", 0) if t == "C" else \
                         ("long", 0) if t == "J" else ("int", 0)
-                data += encode_value(v[0], v[1], self)
+                arr += encode_value(v[0], v[1], self)
+            if self.share_static_values and bytes(arr) in sv_seen:
+                sv_off[c.name] = sv_seen[bytes(arr)]
+                continue
+            sv_off[c.name] = here()
+            sv_seen[bytes(arr)] = here()
+            first = first if first is not None else here()
+            n_sv += 1
+            data += arr
         if n_sv:
             items.append((0x2005, n_sv, first))
 
